@@ -1,9 +1,9 @@
 (* C03 - libavoid: every route joins its two endpoints and stays out of obstacles.
    Only statements closed by `exact`; proofs live in Avoid/SegPoly.v, Avoid/Blocking.v (about the cpp2v-generated
    predicates of Gen/Geometry.v) and Avoid/RefRouter.v. *)
-From Adapt Require Import Num.Qaux Geom.GeomSpec Gen.Geometry Avoid.SegPolyModel Avoid.SegPoly
+From Adapt Require Import Num.Qaux Geom.GeomSpec Geom.GeomSpecDec Gen.Geometry Avoid.SegPolyModel Avoid.SegPoly
      Avoid.CertDijkstraModel Avoid.RefRouterModel Avoid.RefRouter Avoid.RefRouterTotal Avoid.Blocking
-     Avoid.BlockingComplete Avoid.BlockingSound.
+     Avoid.BlockingComplete Avoid.BlockingSound Gen.BlockingLoop Avoid.BlockingGen.
 Local Open Scope Q_scope.
 
 (* the exact segment / convex polygon decider *)
@@ -163,3 +163,44 @@ Theorem C03_blocked_sound_needs_hyps :
    through_interior dbl_tri (mkpt 5 0) (mkpt 5 (-7)) = false).
 Proof. exact (conj twogon_blocked double_blocked). Qed.
 Print Assumptions C03_blocked_sound_needs_hyps.
+
+(* ---- the edge loop of Router::newBlockingShape itself (cpp2v slice Gen/BlockingLoop.v, regenerated every run: the
+   `for (pt_i ...)` loop with the declarations of `blocked` and `seenIntersectionAtEndpoint`) is the hand model, so the
+   characterisation and the exactness theorem hold of the code's loop, not only of the model *)
+Theorem C03_newBlockingShape_loop_eq e1 e2 P :
+  newBlockingShape_edge_loop e1 e2 P = blocked_by_new_shape e1 e2 P /\
+  newBlockingShape_edge_loop e1 e2 P = blocked_by_shape e1 e2 P.
+Proof. exact (conj (newBlockingShape_loop_eq e1 e2 P) (newBlockingShape_loop_eq_shape e1 e2 P)). Qed.
+Print Assumptions C03_newBlockingShape_loop_eq.
+
+Theorem C03_newBlockingShape_loop_char e1 e2 P :
+  newBlockingShape_edge_loop e1 e2 P =
+  existsb (crosses e1 e2) (poly_edges P) || (2 <=? touch_count e1 e2 (poly_edges P))%nat.
+Proof. exact (newBlockingShape_loop_char e1 e2 P). Qed.
+Print Assumptions C03_newBlockingShape_loop_char.
+
+Theorem C03_newBlockingShape_loop_exact P e1 e2 :
+  convex_ccw P = true -> distinct_pts P -> (exists q0, strictly_inside_all_edges P q0) ->
+  inside_strict P e1 = false -> inside_strict P e2 = false ->
+  (newBlockingShape_edge_loop e1 e2 P = false <->
+   through_interior P e1 e2 = false \/
+   (degenerate_chord P e1 e2 = true /\ (touch_count e1 e2 (poly_edges P) < 2)%nat)).
+Proof. exact (newBlockingShape_loop_exact P e1 e2). Qed.
+Print Assumptions C03_newBlockingShape_loop_exact.
+
+(* non-vacuity: the second border touch of a chord whose two ends lie on different sides of the square blocks *)
+Theorem C03_newBlockingShape_loop_second_touch :
+  newBlockingShape_edge_loop (mkpt 0 4) (mkpt 10 1) sq10 = true /\
+  touch_count (mkpt 0 4) (mkpt 10 1) (poly_edges sq10) = 2%nat /\
+  existsb (crosses (mkpt 0 4) (mkpt 10 1)) (poly_edges sq10) = false /\
+  through_interior sq10 (mkpt 0 4) (mkpt 10 1) = true.
+Proof. exact newBlockingShape_loop_second_touch. Qed.
+Print Assumptions C03_newBlockingShape_loop_second_touch.
+
+(* the Gen-free decider that the correspondence (harness/c03_block.cpp: the real EdgeInf::firstBlocker and
+   Router::newBlockingShape on one segment and one polygon) is compared with equals the model and the translated loop *)
+Theorem C03_blocked_by_shape_eq_spec e1 e2 P :
+  blocked_by_shape e1 e2 P = spec_shapeBlocks e1 e2 (poly_edges P) /\
+  newBlockingShape_edge_loop e1 e2 P = spec_shapeBlocks e1 e2 (poly_edges P).
+Proof. exact (conj (blocked_by_shape_eq_spec e1 e2 P) (newBlockingShape_loop_eq_spec e1 e2 P)). Qed.
+Print Assumptions C03_blocked_by_shape_eq_spec.
